@@ -76,7 +76,6 @@ def main():
         return res
     finally:
         sh('git -C /repo worktree remove --force %s'%wt)
-        shutil.rmtree('/verif/replays',ignore_errors=True)
 r=main()
 print(json.dumps(r,indent=1))
 if '--keep' in sys.argv:
